@@ -365,8 +365,16 @@ def resolve_batch(space, batch):
 
 
 def _trials(points):
+  """Trials the way callers build them: every other one lists its parameters
+  in another order than the search space does."""
   from vizier import pyvizier as vz
-  return [vz.Trial(parameters=dict(p), id=i + 1) for i, p in enumerate(points)]
+  out = []
+  for i, p in enumerate(points):
+    items = list(p.items())
+    if i % 2 == 1:
+      items.reverse()
+    out.append(vz.Trial(parameters=dict(items), id=i + 1))
+  return out
 
 
 def _evaluate(exp, points, out, phase):
@@ -544,7 +552,65 @@ def enum_bases(tier):
 def check_base(case):
   out = check_stack(case)
   out.nontrivial = len(case['batch']) >= 2
+  _ctor_statement_by_value(out)
   return out
+
+
+def _ctor_statement_by_value(out):
+  """A problem statement handed to an experimenter's constructor is the
+  caller's object: what the caller does to it afterwards must not change what
+  the experimenter reports (problem statements are passed by value)."""
+  import numpy as np
+  from vizier._src.benchmarks.experimenters import numpy_experimenter
+  from vizier._src.benchmarks.experimenters.synthetic import bbob
+  for cls_name in ('NumpyExperimenter', 'MultiObjectiveNumpyExperimenter'):
+    try:
+      ps = bbob.DefaultBBOBProblemStatement(2)
+      if cls_name == 'NumpyExperimenter':
+        exp = numpy_experimenter.NumpyExperimenter(bbob.Sphere, ps)
+      else:
+        from vizier import pyvizier as vz
+        ps.metric_information.append(vz.MetricInformation(
+            'second', goal=vz.ObjectiveMetricGoal.MINIMIZE))
+        exp = numpy_experimenter.MultiObjectiveNumpyExperimenter(
+            lambda x: np.array([float(np.sum(x ** 2)), float(np.sum(x))]), ps)
+      before = M.describe_ps(exp.problem_statement())
+      M.mutate_ps(ps)
+      if M.describe_ps(exp.problem_statement()) != before:
+        out.violate('ps/constructor_argument_by_reference/' + cls_name,
+                    M._detail(diff=M.diff_desc(  # pylint: disable=protected-access
+                        before, M.describe_ps(exp.problem_statement()))))
+      out.cls('ctor_statement_mutated_afterwards')
+    except Exception as e:  # pylint: disable=broad-except
+      out.cls('ctor_statement_probe_raised:' + type(e).__name__)
+  # hand-built trials all carry the default id 0: a batch of them is evaluated
+  # trial by trial all the same (parameters kept, each its own value)
+  try:
+    from vizier import pyvizier as vz
+    from vizier._src.benchmarks.experimenters import discretizing_experimenter
+    from vizier._src.benchmarks.experimenters import experimenter_factory as ef
+    base = ef.BBOBExperimenterFactory(name='Sphere', dim=2)()
+    exp = discretizing_experimenter.DiscretizingExperimenter.create_with_grid(
+        base, {'x0': 5})
+    pts = [{'x0': -5.0, 'x1': 1.0}, {'x0': 0.0, 'x1': 2.0},
+           {'x0': 5.0, 'x1': -3.0}]
+    trials = [vz.Trial(parameters=dict(p)) for p in pts]
+    exp.evaluate(trials)
+    for p, t in zip(pts, trials):
+      got = {k: v.value for k, v in t.parameters.items()}
+      want_val = float(p['x0'] ** 2 + p['x1'] ** 2)
+      fm = t.final_measurement
+      val = None if fm is None else list(fm.metrics.values())[0].value
+      if got != p:
+        out.violate('input/changed/DiscretizingExperimenter/same_id_batch',
+                    'trial built with %r holds %r after evaluate' % (p, got))
+      elif val is None or abs(val - want_val) > 1e-9 * (1 + abs(want_val)):
+        out.violate('discretize/value/same_id_batch',
+                    'point %r evaluated to %r, Sphere gives %r' % (
+                        p, val, want_val))
+    out.cls('same_id_batch_checked')
+  except Exception as e:  # pylint: disable=broad-except
+    out.cls('same_id_probe_raised:' + type(e).__name__)
 
 
 # ---------------------------------------------------------------------------
